@@ -237,7 +237,7 @@ fn triple_workload(ctx: &Ctx, ci: usize, n: u8, distinct: &Distinct, direct_nont
     }
     f(&tri, false);
     // random triples
-    let total: u64 = ctx.arg_u64("triples").unwrap_or(if ctx.flag("lite") { 1 << 15 } else { ctx.pick(1 << 18, 1 << 24) });
+    let total: u64 = ctx.arg_u64("triples").unwrap_or(if ctx.flag("lite") { 1 << 15 } else { ctx.pick(1 << 18, 1 << 26) });
     let mut rng = Rng::new(ctx.seed, 0x0C01_0000 + ci as u64);
     let mut done = 0u64;
     while done < total {
@@ -252,7 +252,7 @@ fn triple_workload(ctx: &Ctx, ci: usize, n: u8, distinct: &Distinct, direct_nont
         done += len;
     }
     // thorough: exhaustive sub-cube for n = 9, 10 (all Y x all U x 8 V values)
-    if ctx.tier == crate::Tier::Thorough && n <= 10 {
+    if ctx.tier == crate::Tier::Thorough && n <= 11 && !ctx.flag("lite") {
         let vs: Vec<u32> = (0..8).map(|i| (i * (maxc as u32 - 1)) / 7).collect();
         for v in vs {
             for u in 0..maxc as u32 {
@@ -798,7 +798,7 @@ pub fn c02(ctx: &Ctx) {
     let distinct = Distinct::new(ctx.pick(27, 31));
     let evals = AtomicU64::new(0);
     let tot = Mutex::new(([0u64; 12], [0u64; 3], [0u64; 3], [0u64; 3], [0u64; 6]));
-    let rounds: u64 = ctx.pick(1, 4);
+    let rounds: u64 = if ctx.flag("lite") { 1 } else { ctx.pick(1, 16) };
     ev::par_ranges("C02", cfgs.len() as u64 * rounds, 1, |_w, a, _b| {
         let ci = (a / rounds) as usize;
         let round = a % rounds;
